@@ -10,6 +10,9 @@ structure Snap where
   kind : Nat
   held : List Nat
   notices : List Nat
+  /-- jobs in the pending pool, and the largest free demand among ALL registered bindings -/
+  pending : Nat := 0
+  maxFree : Nat := 0
   deriving Repr, Inhabited
 
 structure Mon where
@@ -32,6 +35,7 @@ def Mon.step (dc : Bool) (m : Mon) (s : Snap) : Mon :=
     else if !left.isEmpty && s.kind != 2 then some "jobs vanished without a worker confirmation"
     else if dc && !sameMembers s.notices left then some "DeliveryConfirmed notices do not match the confirmed jobs"
     else if !dc && !s.notices.isEmpty then some "unexpected DeliveryConfirmed"
+    else if s.pending > 0 && s.maxFree > 0 then some "a job waits in the pending pool although a registered worker has free demand"
     else none
   { prev := s.held, confirmed := m.confirmed ++ left, maxSeen := entered.foldl max m.maxSeen,
     ok := m.ok && bad.isNone, why := if m.ok then bad.getD "" else m.why }
